@@ -43,10 +43,13 @@ Record env := mkEnv {
   root_writable : bool;            (* the output directory itself accepts new entries from this user *)
   ancestors     : path -> list path;  (* the directories strictly between the output directory and the path, outermost first *)
   child         : path -> path;    (* p/<file name of the packaged resource>: where shutil.copy lands when p is a directory *)
-  links         : path -> option path  (* symbolic links in the tree: p is a link whose destination is the path d (inside or
+  links         : path -> option path; (* symbolic links in the tree: p is a link whose destination is the path d (inside or
                                           outside the output directory; dangling when d has no entry).  No run creates, removes
                                           or retargets a link (every operation below follows links), so they are part of the shape.
                                           One level: destinations are not links themselves. *)
+  special       : path -> bool         (* entries that are neither regular files nor directories nor links: character/block
+                                          devices, FIFOs, sockets.  No run creates or removes one either.  A special path
+                                          always exists (fs_exists_at); what sits in [fs] for it is only mode and owner. *)
 }.
 
 (* what exists()/is_dir()/stat()/chmod()/open() operate on: the destination of a link, the path itself otherwise *)
@@ -62,6 +65,13 @@ Definition bind (x : fs * result) (k : fs -> fs * result) : fs * result :=
 (* ---- primitive operations --------------------------------------------------------------- *)
 Definition fs_exists (s : fs) (p : path) : bool :=
   match s p with Some _ => true | None => false end.
+
+(* Path.exists() *)
+Definition fs_exists_at (e : env) (s : fs) (p : path) : bool := fs_exists s p || special e p.
+
+(* Path.is_file(): a regular file (after following links: the caller resolves) *)
+Definition fs_is_file (e : env) (s : fs) (p : path) : bool :=
+  match s p with Some f => negb (f_isdir f) && negb (special e p) | None => false end.
 
 Definition fs_is_dir (s : fs) (p : path) : bool :=
   match s p with Some f => f_isdir f | None => false end.
@@ -115,6 +125,8 @@ Definition parent_of (e : env) (p : path) : option path := last_from None (ances
 Definition fs_write_in (e : env) (s : fs) (d : option path) (q : path) (c : N) : fs * result :=
   match s q with
   | Some f => if f_isdir f then (s, Err EIsDir)
+              else if special e q then (s, Ok)        (* a character device swallows what is written (a FIFO without reader
+                                                         blocks forever: not modelled); nothing of the entry changes *)
               else if writable e f then (upd s q (set_cid f c), Ok)
               else (s, Err EAccess)
   | None => if allows e s d
